@@ -545,7 +545,7 @@ func runSourceFaults(c *Ctx) error {
 // ---- invalid settings ----
 
 func runInvalidSettings(c *Ctx, tree *SrcTree) {
-	fam := c.Rep.Family("invalid-settings", "exhaustive list of invalid-setting classes x the formats they apply to, each on an otherwise valid one-file configuration: deb compression bogus; rpm compression bogus / gzip:notanumber / a:b:c; rpm epoch abc; deb signature type bogus with a key (debsign); platform darwin for apk and archlinux; archlinux name #bad; content type bogus; empty name; empty version; failing signing callback for deb (debsign and dpkg-sig), rpm, apk. Package must return a non-nil error. non-trivial = always")
+	fam := c.Rep.Family("invalid-settings", "exhaustive list of invalid-setting classes x the formats they apply to, each on an otherwise valid one-file configuration: deb compression bogus; rpm compression bogus / gzip:notanumber / a:b:c; rpm epoch abc; deb signature type bogus with a key (debsign); platform darwin for apk and archlinux; archlinux name #bad; content type bogus; empty name; empty version; a relation with an operator rpm does not know at the first/middle/last place of each of the six relation lists (rpm); failing signing callback for deb (debsign and dpkg-sig), rpm, apk. Package must return a non-nil error. non-trivial = always")
 	fam.Exhaustive = true
 	keys := c06KeyFiles(c.Repo)
 	signErr := errors.New("c06: signing callback refuses")
@@ -579,6 +579,34 @@ func runInvalidSettings(c *Ctx, tree *SrcTree) {
 		}},
 		{"sign-callback", "rpm.signature.SignFn fails", []string{"rpm"}, func(i *nfpm.Info) { i.RPM.Signature.SignFn = failingSign }},
 		{"sign-callback", "apk.signature.SignFn fails", []string{"apk"}, func(i *nfpm.Info) { i.APK.Signature.SignFn = failingSign }},
+	}
+	// a relation rpm cannot express (an operator unknown to it), in each relation list in turn, first / middle / last
+	// of the list, while every other list holds valid relations
+	for _, list := range []string{"provides", "depends", "recommends", "suggests", "replaces", "conflicts"} {
+		for pos := 0; pos < 3; pos++ {
+			list, pos := list, pos
+			cases = append(cases, inv{"relation-operator", fmt.Sprintf("%s[%d]='bash >> 4.0' (operator unknown to rpm), all other relation lists valid", list, pos), []string{"rpm"}, func(i *nfpm.Info) {
+				valid := func(p string) []string { return []string{p + "-a", p + "-b >= 1.0"} }
+				i.Provides, i.Depends, i.Recommends = valid("prov"), valid("dep"), valid("rec")
+				i.Suggests, i.Replaces, i.Conflicts = valid("sug"), valid("rep"), valid("con")
+				bad := []string{"ok-one", "ok-two = 2"}
+				bad = append(bad[:pos], append([]string{"bash >> 4.0"}, bad[pos:]...)...)
+				switch list {
+				case "provides":
+					i.Provides = bad
+				case "depends":
+					i.Depends = bad
+				case "recommends":
+					i.Recommends = bad
+				case "suggests":
+					i.Suggests = bad
+				case "replaces":
+					i.Replaces = bad
+				case "conflicts":
+					i.Conflicts = bad
+				}
+			}})
+		}
 	}
 	base := &PkgSpec{Raw: []wire.Content{{Src: filepath.Join(tree.Root, "bin/tool"), Dst: "/usr/bin/tool"}}, Umask: 0o022, MTime: 1700000000}
 	for _, f := range Formats {
@@ -1041,6 +1069,45 @@ func CliTargetCases(c *Ctx, fam *report.Family, bin string) {
 			return plan{args: []string{"-p", pw[0], "-t", pw[1]}, want: filepath.Join(d, pw[1])}
 		})
 	}
+	// a file that already sits at the resolved target (a previous, larger build) is replaced: afterwards the target
+	// holds exactly the package a build into a fresh directory produces (mtime fixed, so builds are reproducible)
+	for _, f := range Formats {
+		conv := conventional(f, v)
+		for _, how := range []string{"file-target", "conventional-name-in-directory"} {
+			y := cliYAML(v.version, v.release, "linux", []cliEntry{{tool, "/usr/bin/tool", ""}}, nil, "mtime: 2023-11-14T22:13:20Z\n")
+			dirs := [2]string{}
+			for k := range dirs {
+				dirs[k], _ = fresh(v)
+				_ = os.WriteFile(filepath.Join(dirs[k], "nfpm.yaml"), []byte(y), 0o644)
+				_ = os.Mkdir(filepath.Join(dirs[k], "out"), 0o755)
+			}
+			rel := filepath.Join("out", "pkg"+cliExt[f])
+			args := []string{"-p", f, "-t", rel}
+			if how == "conventional-name-in-directory" {
+				rel = filepath.Join("out", conv)
+				args = []string{"-p", f, "-t", "out"}
+			}
+			stale := bytes.Repeat([]byte("stale bytes of a previous, larger build\n"), 8192)
+			_ = os.WriteFile(filepath.Join(dirs[0], rel), stale, 0o644)
+			code0, out0 := runNfpm(bin, dirs[0], args...)
+			code1, out1 := runNfpm(bin, dirs[1], args...)
+			cs := "existing-file-at-target"
+			fam.Eval(cs+"|"+f+"|"+how, true)
+			fam.Count(cs)
+			in := map[string]any{"case": cs, "packager": f, "how": how, "config": y, "args": append([]string{"package"}, args...), "stale_bytes": len(stale)}
+			if code0 != 0 || code1 != 0 {
+				find(cs, fmt.Sprintf("%s: `nfpm package %s` exits %d onto an existing file and %d into a fresh directory: %q %q", f, strings.Join(args, " "), code0, code1, out0, out1), in)
+				continue
+			}
+			over, _ := os.ReadFile(filepath.Join(dirs[0], rel))
+			freshB, _ := os.ReadFile(filepath.Join(dirs[1], rel))
+			if !bytes.Equal(over, freshB) {
+				in["size_over_existing"], in["size_fresh"] = len(over), len(freshB)
+				find(cs, fmt.Sprintf("%s: `nfpm package %s` onto an existing %d-byte file leaves %d bytes at the target; the same build into a fresh directory writes %d bytes (common prefix %d)",
+					f, strings.Join(args, " "), len(stale), len(over), len(freshB), commonPrefixLen(over, freshB)), in)
+			}
+		}
+	}
 	// no packager and nothing to infer it from
 	expect("no-packager", v, "", func(d string) plan { return plan{args: nil} })
 	expect("no-packager", v, "", func(d string) plan { return plan{args: []string{"-t", ""}} })
@@ -1068,4 +1135,12 @@ func runC06(c *Ctx) error {
 	}
 	runInvalidSettings(c, tree)
 	return runCli(c, tree)
+}
+
+func commonPrefixLen(a, b []byte) int {
+	n := 0
+	for n < len(a) && n < len(b) && a[n] == b[n] {
+		n++
+	}
+	return n
 }
